@@ -52,6 +52,8 @@ class AbsGroup:
         s = share.tag if share is not None else tag           # share: same field/encoding, different generator
         self.ENC = z3.Function("ENC_%s" % s, z3.IntSort(), z3.IntSort())
         self.RS = z3.Function("RS_%s" % s, z3.IntSort(), z3.IntSort())
+        self.VALID = z3.Function("VALID_%s" % s, z3.IntSort(), z3.BoolSort())     # is this W-byte value an encoding?
+        self.DLOG = z3.Function("DLOG_%s" % s, z3.IntSort(), z3.IntSort())       # ... of which element
         self.enc_key = "encs_" + s
         self.Base = AbsElem(self, z3.IntVal(1) if base_log is None else base_log)
         self.Zero = AbsElem(self, z3.IntVal(0))
@@ -125,7 +127,7 @@ class AbsGroup:
             if l2.eq(lg):
                 return SymBytes.from_int(t2, self.element_size_bytes)
         t = self.ENC(lg)
-        c.side += [t >= 0, t < 256 ** self.element_size_bytes]
+        c.side += [t >= 0, t < 256 ** self.element_size_bytes, self.VALID(t)]
         tab.append((lg, t))
         return SymBytes.from_int(t, self.element_size_bytes)
 
@@ -144,8 +146,10 @@ class AbsGroup:
                 found = lg
                 break
         if found is None:
-            k = c.fresh("dec_" + self.tag)
-            if SymBool(self.ENC(k) == v):
+            # some other byte string: decoding is a function of the bytes (VALID/DLOG are uninterpreted)
+            if SymBool(self.VALID(v)):
+                k = self.DLOG(v)
+                c.side.append(self.ENC(k) == v)
                 tab.append((k, self.ENC(k)))
                 found = k
                 c.table("decoded_fresh").append((self, k))
